@@ -111,6 +111,50 @@ def rnd_amp(rng, m, n):
             return a
 
 
+def rnd_seg(rng, m, n):
+    """a labelling of the pupil samples into 2-3 disjoint segments (0 = opaque) whose BOUNDING BOXES overlap in most
+    cases: two triangles, an L wrapped around a block, interleaved or random labels; None when the pupil is too small"""
+    if m * n < 2:
+        return None
+    kind = rng.choice(['triangles', 'ell', 'random', 'random3', 'halves', 'stripes'])
+    lab = [[0] * n for _ in range(m)]
+    for x in range(m):
+        for y in range(n):
+            if kind == 'triangles':
+                lab[x][y] = 1 if x * n > y * m else 2 if x * n < y * m else 0
+            elif kind == 'ell':
+                lab[x][y] = 2 if (x >= m // 2 and y >= n // 2) else 1
+            elif kind == 'random':
+                lab[x][y] = rng.choice([0, 1, 1, 2, 2])
+            elif kind == 'random3':
+                lab[x][y] = rng.choice([0, 1, 2, 3])
+            elif kind == 'halves':
+                lab[x][y] = 1 if y < (n + 1) // 2 else 2
+            else:
+                lab[x][y] = 1 + (x + y) % 2
+    k = max(v for row in lab for v in row)
+    present = {v for row in lab for v in row if v}
+    if k < 2 or present != set(range(1, k + 1)):
+        return None
+    return lab
+
+
+def mask_cube(seg):
+    k = max(v for row in seg for v in row)
+    return np.array([[[1 if v == j else 0 for v in row] for row in seg] for j in range(1, k + 1)])
+
+
+def apply_seg(rng, c_amp, m, n):
+    """returns (amplitude restricted to the segments, labelling) or (amplitude, None)"""
+    seg = rnd_seg(rng, m, n)
+    if seg is None:
+        return c_amp, None
+    a = [[c_amp[x][y] if seg[x][y] else 0 for y in range(n)] for x in range(m)]
+    if not any(v != 0 for row in a for v in row):
+        return c_amp, None
+    return a, seg
+
+
 def gen_prop(rng, tier):
     os_ = rng.choice([1, 1, 2, 2, 3])
     maxP = 12
@@ -133,6 +177,10 @@ def gen_prop(rng, tier):
          'dexp': rng.choice([6, 7, 8]), 'uexp': rng.choice([16, 17, 18]), 'z': rng.choice(['1', '2', '1/2', '4']),
          'wins': [list(s1), list(s2), [npr, npc]],
          'power': None}
+    if rng.random() < 0.3:          # a segmented pupil: one Field per segment, cropped to the segment's bounding box
+        a, seg = apply_seg(rng, c['amp'], m, n)
+        if seg is not None:
+            c['amp'], c['seg'] = a, seg
     t = rng.random()
     if t < 0.4:
         pass
@@ -143,6 +191,7 @@ def gen_prop(rng, tier):
         if m * n > 9:
             c['amp'] = [row[:3] for row in c['amp'][:3]]
             c['ph'] = [row[:3] for row in c['ph'][:3]]
+            c.pop('seg', None)
             if not any(v != 0 for row in c['amp'] for v in row):
                 c['amp'][0][0] = 1
         c['power'] = rng.choice(['1', '2', '1/2', '5', '0.75', '100', '9', '1/16'])
@@ -227,8 +276,13 @@ def gen_hist(rng, tier):
         if rng.random() < 0.4:                  # a field as wide as the grid allows
             m, n = min(8, qr), min(8, qc)
         phden = rng.choice([1, 2, 4, 8])
-        calls.append({'amp': rnd_amp(rng, m, n), 'ph': [[rng.randrange(phden) for _ in range(n)] for _ in range(m)],
-                      'phden': phden, 'lamfac': fac})
+        cl = {'amp': rnd_amp(rng, m, n), 'ph': [[rng.randrange(phden) for _ in range(n)] for _ in range(m)],
+              'phden': phden, 'lamfac': fac}
+        if rng.random() < 0.3:
+            a, seg = apply_seg(rng, cl['amp'], m, n)
+            if seg is not None:
+                cl['amp'], cl['seg'] = a, seg
+        calls.append(cl)
     if not any(cl['lamfac'] == '1' for cl in calls):
         calls[rng.randrange(len(calls))]['lamfac'] = '1'
     return {'op': 'ffthist', 'npix': [npr, npc], 'os': os_, 'aniso': aniso,
@@ -250,8 +304,42 @@ def hist_ok(c):
     return True
 
 
+def gen_big(rng):
+    """a large pupil (size-dependent code paths are a class): oracle only, arrays regenerated from a seed"""
+    os_ = rng.choice([1, 2])
+    m = rng.choice([31, 33, 63, 64, 65, 67])
+    n = m if rng.random() < 0.3 else rng.choice([32, 64, 65, 66])
+    npr = -(-m // os_) + rng.choice([0, 0, 1, 3])
+    npc = -(-n // os_) + rng.choice([0, 0, 2])
+    aniso = 'none' if npr == npc else rng.choice(['pupil', 'detector'])
+    s1 = (rng.randint(1, npr), rng.randint(1, npc))
+    s2 = (rng.randint(s1[0], npr), rng.randint(s1[1], npc))
+    return {'op': 'prop', 'big': [m, n], 'seed': rng.randrange(10 ** 6), 'phden': 8,
+            'npix': [npr, npc], 'os': os_, 'aniso': aniso,
+            'dexp': rng.choice([6, 7, 8]), 'uexp': rng.choice([16, 17, 18]), 'z': rng.choice(['1', '2', '1/2', '4']),
+            'wins': [list(s1), list(s2), [npr, npc]], 'power': rng.choice([None, '1', '2.5'])}
+
+
+def expand_big(c):
+    if not c.get('big') or 'amp' in c:
+        return c
+    m, n = c['big']
+    g = np.random.default_rng(c['seed'])
+    amp = (g.integers(0, 5, size=(m, n)) / 2.0)
+    if not amp.any():
+        amp[m // 2, n // 2] = 1.0
+    return dict(c, amp=amp.tolist(), ph=g.integers(0, 8, size=(m, n)).tolist())
+
+
 def generate(rng, tier):
     n_cases = 110 if tier == 'quick' else 1500
+    out = 0
+    while out < (4 if tier == 'quick' else 40):
+        c = gen_big(rng)
+        if not alpha_ok(c):
+            continue
+        out += 1
+        yield c
     n_hist = 40 if tier == 'quick' else 500
     out = 0
     while out < n_hist:
@@ -281,16 +369,20 @@ def generate(rng, tier):
 
 
 def classify(c):
+    if c.get('big'):
+        return 'prop/large/os%d/%s' % (c['os'], c['aniso'])
     if c['op'] == 'ffthist':
         r, q = c['npix']
         return 'ffthist/%s/%s' % ('wide' if q > r else 'tall' if q < r else 'square', 'dirty' if c['dirty'] else 'clean')
     if c['op'] == 'prop':
         return 'prop/os%d/%s/%s%s' % (c['os'], c['aniso'], 'norm' if c.get('power') else 'raw',
-                                      '/history' if c.get('between') else '')
+                                      '/history' if c.get('between') else '') + ('/segmented' if c.get('seg') else '')
     return c['op'] + ('/' + c['dtype'] if c.get('dtype') else '')
 
 
 def nontrivial(c):
+    if c.get('big'):
+        return True
     if c['op'] == 'ffthist':
         return len(c['calls']) >= 2
     if c['op'] == 'normalize':
@@ -314,6 +406,8 @@ def supplied_root(q):
 
 
 def encode(c):
+    if c.get('big'):
+        return None          # too large for the exact group ring: decided by the energy oracle
     if c['op'] == 'prop':
         L = case_L(c)
         m, n = len(c['amp']), len(c['amp'][0])
@@ -389,6 +483,7 @@ def decode(c, ints):
 def run_impl(c):
     lentil = C.import_lentil()
     fresh_state(lentil)
+    c = expand_big(c)
     try:
         if c['op'] == 'normalize':
             if c.get('dtype'):
@@ -410,7 +505,10 @@ def run_impl(c):
         opd = lam * np.array(c['ph'], dtype=float) / c['phden']
 
         def wavefront(tilt=None, via='plane'):
-            pupil = lentil.Pupil(amplitude=amp, opd=opd, pixelscale=fdx, focal_length=float(z))
+            if c.get('seg'):
+                pupil = lentil.Pupil(amplitude=amp, opd=opd, mask=mask_cube(c['seg']), pixelscale=fdx, focal_length=float(z))
+            else:
+                pupil = lentil.Pupil(amplitude=amp, opd=opd, pixelscale=fdx, focal_length=float(z))
             if tilt is not None and via == 'wavefront':
                 return lentil.Wavefront(lam, tilt=list(tilt)) * pupil
             w_ = lentil.Wavefront(lam) * pupil
@@ -419,7 +517,9 @@ def run_impl(c):
             return w_
 
         w = wavefront()
-        res = {'pin_amp': float(np.sum(np.abs(amp) ** 2)), 'pin_field': float(np.sum(np.abs(w.field) ** 2)),
+        cover = mask_cube(c['seg']).sum(axis=0) if c.get('seg') else (amp != 0)
+        field_in = amp * cover * np.exp(2j * np.pi * opd / lam)
+        res = {'pin_amp': float(np.sum(np.abs(field_in) ** 2)), 'pin_field': float(np.sum(np.abs(w.field) ** 2)),
                'pin_intensity': float(np.sum(w.intensity))}
         res.update(window_energies(lentil, c, w, fdu, os_))
         if c.get('between'):
@@ -508,9 +608,10 @@ def run_hist(lentil, c, fdx, fdu, z, lam0, os_):
     res = {'scratch_shape': list(shp), 'calls': []}
 
     def wavefront(cl, lam):
+        kw = {'mask': mask_cube(cl['seg'])} if cl.get('seg') else {}
         pupil = lentil.Pupil(amplitude=np.array(cl['amp'], dtype=float),
                              opd=lam * np.array(cl['ph'], dtype=float) / cl['phden'],
-                             pixelscale=fdx, focal_length=z)
+                             pixelscale=fdx, focal_length=z, **kw)
         return lentil.Wavefront(lam) * pupil
 
     for cl, lam in zip(c['calls'], lams):
@@ -530,12 +631,12 @@ def run_hist(lentil, c, fdx, fdu, z, lam0, os_):
 def oracle_hist(c, impl):
     os_ = c['os']
     for k, (cl, r) in enumerate(zip(c['calls'], impl['calls'])):
-        pin = r['pin']
+        pin = r['pin_amp']           # the input power computed from the pupil ARRAYS, not from Wavefront.field
         grid = [int(c['npix'][0] * os_ * Fraction(cl['lamfac'])), int(c['npix'][1] * os_ * Fraction(cl['lamfac']))]
         where = f'propagate_fft call {k + 1} of {len(c["calls"])} (grid {grid[0]}x{grid[1]}, scratch {impl["scratch_shape"]}, ' \
                 f'{"dirty" if c["dirty"] else "zeroed"} at the start)'
-        if not close(pin, r['pin_amp'], 1e-12):
-            return f'{where}: pupil-plane power sum|field|^2 = {pin!r}, sum amplitude^2 = {r["pin_amp"]!r}'
+        if not close(pin, r['pin'], 1e-12):
+            return f'{where}: pupil-plane power sum|Wavefront.field|^2 = {r["pin"]!r}, sum|amplitude*mask*phasor|^2 = {pin!r}'
         if r['shape_ref'] != grid or r['shape_out'] != grid:
             return f'{where}: output shapes {r["shape_ref"]} / {r["shape_out"]} instead of one period {grid}'
         if r['min'] < 0:
@@ -596,11 +697,11 @@ def oracle(c, impl):
             return f'normalize_power(a, {p}) has power {impl["power"]!r}' + (f' (array dtype {c["dtype"]})' if c.get('dtype') else '')
         return None
     p = float(Fraction(c['power'])) if c.get('power') else None
-    pin = impl['pin_field']
+    pin = impl['pin_amp']            # the input power computed from the pupil ARRAYS: sum|amplitude*mask*phasor|^2
     if p is not None and abs(impl['pin_amp'] - p) > 1e-12 * (1 + p):
         return f'normalize_power(amplitude, {p}) has power {impl["pin_amp"]!r}'
-    if not close(pin, impl['pin_amp'], 1e-12) or not close(pin, impl['pin_intensity'], 1e-12):
-        return (f'pupil-plane power: sum amplitude^2 = {impl["pin_amp"]!r}, sum|field|^2 = {pin!r}, '
+    if not close(pin, impl['pin_field'], 1e-12) or not close(pin, impl['pin_intensity'], 1e-12):
+        return (f'pupil-plane power: sum|amplitude*mask*phasor|^2 = {pin!r}, sum|Wavefront.field|^2 = {impl["pin_field"]!r}, '
                 f'sum intensity = {impl["pin_intensity"]!r}')
     msg = window_predicates(c, impl, pin, p, '')
     if msg:
